@@ -1,7 +1,47 @@
+/-
+  C11: linkedlist.Buffer behaves as a FIFO byte queue of copied segments.
+  Only property theorems and non-vacuity examples live here; helper lemmas are in
+  Gnet/Proofs/LinkedList.lean. Statements in this file are never weakened to make a proof pass.
+-/
 import Gnet.Model.LinkedList
+import Gnet.Proofs.LinkedList
 namespace Gnet.Props.C11
 open Gnet
 
-theorem ll_empty_wf : (LL.empty : LL Nat).WF := ⟨by simp [LL.empty], by simp [LL.empty], by simp [LL.empty]⟩
+variable {α : Type}
+
+theorem ll_empty_wf : (LL.empty : LL α).WF := Proofs.LinkedList.empty_wf
+
+/-- Every operation from every well-formed state keeps the invariant and is a step of the
+    specification: content is exactly what was pushed, in queue order, each byte once;
+    `ReadFrom` stores and reports every byte the reader returned (also with EOF / an error);
+    `WriteTo`, `Read`, `Discard`, `Pop` remove exactly what they hand out. -/
+theorem ll_step_refines (gen : Nat → α) (l : LL α) (pos : Nat) (op : SegFifo.Op α) (h : l.WF) :
+    (LL.step gen (l, pos) op).1.1.WF ∧
+    SegFifo.Step gen LL.minRead (l.abs, pos) op
+      ((LL.step gen (l, pos) op).1.1.abs, (LL.step gen (l, pos) op).1.2) (LL.step gen (l, pos) op).2 :=
+  Proofs.LinkedList.step_refines gen l pos op h
+
+/-- all finite histories from the empty buffer -/
+theorem ll_run_refines (gen : Nat → α) (ops : List (SegFifo.Op α)) :
+    (LL.run gen (LL.empty, 0) ops).1.1.WF ∧
+    SegFifo.Run gen LL.minRead ([], 0) ops (LL.run gen (LL.empty, 0) ops).2
+      ((LL.run gen (LL.empty, 0) ops).1.1.abs, (LL.run gen (LL.empty, 0) ops).1.2) :=
+  Proofs.LinkedList.run_refines gen ops
+
+/-- `Buffered` = number of content bytes, `Len` = number of segments, `IsEmpty` iff `Buffered = 0` -/
+theorem ll_counters (l : LL α) (h : l.WF) :
+    l.buffered = (l.abs.length : Int) ∧ l.len = (l.segs.length : Int) ∧
+    (l.isEmpty = true ↔ l.buffered = 0) :=
+  Proofs.LinkedList.counters l h
+
+/-- `PushBack`/`PushFront` copy: no operation except `Append` ever links caller memory. -/
+theorem ll_copy_semantics (gen : Nat → α) (l : LL α) (pos : Nat) (op : SegFifo.Op α)
+    (h : l.AllOwned) (hop : ∀ p, op ≠ .append p) : (LL.step gen (l, pos) op).1.1.AllOwned :=
+  Proofs.LinkedList.copy_semantics gen l pos op h hop
+
+-- non-vacuity: a three-segment state satisfies the invariant
+example : (⟨[⟨[1, 2], true⟩, ⟨[3], false⟩, ⟨[4, 5, 6], true⟩], 3, 6⟩ : LL Nat).WF :=
+  ⟨by simp, by simp, by simp⟩
 
 end Gnet.Props.C11
